@@ -168,3 +168,70 @@ def o17_confirm(v, out):
     if r == 'close_while_background_busy':
         return (out.get('open_while_closing') == 'ok', 'background work of the closing instance still scheduled, one spurious wake-up: a second open %s' % out.get('open_while_closing'))
     return o17_1_confirm(v, out)
+
+
+def o17_4_disk_lock_file(mir, tier):
+    """<OsFileSystem as FileSystem>::lock_file and <TmpFileSystem as FileSystem>::lock_file with the operating system by contract
+    (OpenOptions::open and fs2's try_lock_exclusive free to fail; every other std::fs call is recorded).  Reference: the lock is
+    requested on the file opened at the given (for the temporary file system: rooted) path; a refused lock - another handle
+    holds it - or a failed open is reported as an error and NOTHING else is done to the directory (removing or replacing the lock
+    file under the owner lets the next caller lock a fresh file and become a second owner); on success the returned FileLock
+    keeps that very handle open."""
+    fns = [f for f in mir.fns.values() if f.name == 'lock_file' and 'fs_disk' in f.path]
+    if len(fns) != 2: raise Inconclusive('expected two disk lock_file implementations, found %d' % len(fns))
+    res = Result('O17.4 disk file systems: lock_file', [f.path for f in fns], 'open and try_lock_exclusive free to fail; flock itself by contract')
+    t0 = time.time()
+    open_ok, lock_ok = Bool('open_ok'), Bool('lock_granted')
+    for fn in fns:
+        S = lib.std_summaries(); P = S['$patterns']
+        def ev(env, e):
+            st = dict(env['$state']); st['events'] = st['events'] + [e]; env['$state'] = st; return st
+        def val(se, env, x):
+            k = 0
+            while isinstance(x, Ref) and k < 8: x = se.deref(env, x); k += 1
+            return x
+        P[r'OpenOptions::new'] = lambda se, env, pc: lib.one(env, {'open_options': True})
+        P[r'OpenOptions::(?:read|write|create|truncate|append|create_new)'] = lambda se, env, pc, o, b: lib.one(env, o)
+        P[r'TmpFileSystem::get_rooted_path'] = lambda se, env, pc, fs, p: lib.one(env, {'rooted': val(se, env, p)})
+        def open_(se, env, pc, o, path):
+            st = ev(env, ('open', val(se, env, path)))
+            return [(open_ok, Enum('Ok', ({'file_handle_of': val(se, env, path)},)), st), (Not(open_ok), Enum('Err', ({'kind': 'io', '__ty': 'io::Error'},)), st)]
+        P[r'OpenOptions::open'] = open_
+        def try_lock(se, env, pc, f):
+            st = ev(env, ('try_lock', val(se, env, f)))
+            return [(lock_ok, Enum('Ok', ((),)), st), (Not(lock_ok), Enum('Err', ({'kind': 'WouldBlock', '__ty': 'io::Error'},)), st)]
+        P[r'<File as fs2::FileExt>::try_lock_exclusive'] = try_lock
+        P[r'<File as (?:fs2::)?FileExt>::(?:lock_exclusive|unlock|lock_shared|try_lock_shared)'] = lambda se, env, pc, f: [(None, Enum('Ok', ((),)), ev(env, ('other_lock_call',)))]
+        P[r'(?:(?:std::)?fs::)?(?:remove_file|remove_dir|remove_dir_all|rename|write|create_dir|create_dir_all|copy|hard_link)(?:::<.*>)?'] = lambda se, env, pc, *a: [(None, Enum('Ok', ((),)), ev(env, ('directory_change', [val(se, env, x) for x in a])))]
+        P[r'(?:std::fs::)?File::(?:set_len|create)'] = lambda se, env, pc, *a: [(None, Enum('Ok', ((),)), ev(env, ('directory_change', 'file')))]
+        P[r'FileLock::new'] = lambda se, env, pc, b: lib.one(env, {'file_lock_over': val(se, env, b)})
+        P[r'(?:std|core)::mem::drop'] = lib.unit
+        P[r'<PathBuf as Deref>::deref'] = lib.ident; P[r'<PathBuf as AsRef<Path>>::as_ref'] = lib.ident; P[r'<&PathBuf as AsRef<Path>>::as_ref'] = lib.ident
+        ex = Exec(mir, S, loop_bound=3)
+        is_tmp = 'TmpFileSystem' in (fn.self_ty or '') or '239' in fn.path
+        def k(ret, env, pc, ex=ex, is_tmp=is_tmp, fn=fn):
+            evs = env['$state']['events']; kinds = [e[0] for e in evs]
+            ok = isinstance(ret, Enum) and ret.tag == 'Ok'
+            opens = [e for e in evs if e[0] == 'open']
+            path_ok = len(opens) == 1 and (opens[0][1] == {'rooted': {'path': 'LOCK'}} if is_tmp else opens[0][1] == {'path': 'LOCK'})
+            locked = [e for e in evs if e[0] == 'try_lock']
+            posts = [('lock_file does not open exactly the lock file it was asked for', BoolVal(path_ok)),
+                     ('lock_file reports success although the file could not be opened or the lock was refused (or fails although both succeeded)', BoolVal(ok) == And(open_ok, lock_ok)),
+                     ('the exclusive lock is not requested on the handle that was just opened', Or(Not(open_ok), BoolVal(len(locked) == 1 and isinstance(locked[0][1], dict) and 'file_handle_of' in locked[0][1]))),
+                     ('lock_file changes the directory (removes / replaces a file) - with a refused lock the owner is left with a lock on a file that no longer exists and the next caller becomes a second owner', BoolVal('directory_change' not in kinds and 'other_lock_call' not in kinds))]
+            if ok: posts.append(('the returned lock does not keep the locked handle', BoolVal(isinstance(ret.fields[0], dict) and isinstance(ret.fields[0].get('file_lock_over'), dict) and 'file_handle_of' in ret.fields[0]['file_lock_over'])))
+            res.cases['%s: %s -> %s' % ('TmpFileSystem' if is_tmp else 'OsFileSystem', kinds, 'Ok' if ok else 'Err')] = 1
+            for label, post, m in ex.check_posts(posts, pc):
+                res.violations.append({'label': label, 'file_system': 'TmpFileSystem' if is_tmp else 'OsFileSystem', 'events': kinds, 'replay': ['repeated_open_attempts']})
+        ex.top(fn, [{'abstract': True, '__ty': 'fs'}, {'path': 'LOCK'}], {'$state': {'events': []}}, [], k)
+        res.absorb(ex)
+    res.wall_s = time.time() - t0
+    if res.violations: res.status = 'violation'
+    return res
+
+
+def o17_4_confirm(v, out):
+    """Native (disk file system, real flock): the owner is open; two open attempts and a destroy attempt in a row must all be refused;
+    the owner keeps working."""
+    if out.get('_rc') != 0: return (True, 'native run failed / panicked: %s' % out.get('_stderr', '')[-300:])
+    return (out.get('attempts') != 'err,err,err,err' or out.get('owner_still_works') != 'true', 'native: open, open, destroy, open while the owner is alive: %s; owner still works: %s' % (out.get('attempts'), out.get('owner_still_works')))
